@@ -472,6 +472,9 @@ pub fn run(ctx: &mut Ctx) {
     // after rounding to a double)
     ctx.run_prop(&c09::PairSub, &c09::pair_case, t.pick(200_000, 6_000_000));
     ctx.run_prop(&c09::RoundSub, &c09::round_case, t.pick(200_000, 6_000_000));
+    // field records: every out-of-range field is clamped or refused with a RangeError (never a panic, never a value
+    // with an impossible month or day): C17's merge oracle over the full u8 / u16 / i32 value ranges
+    ctx.run_prop(&crate::props::c17::MergeSub, &crate::props::c17::merge_case, t.pick(300_000, 5_000_000));
     ctx.run_release_profile();
 }
 
@@ -491,6 +494,7 @@ pub fn replay(ctx: &mut Ctx, sub: &str, case: &Value) -> bool {
         "new" => ctx.replay_case(&c09::NewSub, case),
         "pair" => ctx.replay_case(&c09::PairSub, case),
         "round" => ctx.replay_case(&c09::RoundSub, case),
+        "merge" => ctx.replay_case(&crate::props::c17::MergeSub, case),
         _ => false,
     }
 }
